@@ -27,6 +27,9 @@ LTYPES = {
     "PyTree[Q]": ["pytree", Q],
     "tuple[PyTree[Q],Q]": ["tuple", [["pytree", Q], Q]],
     "PyTree[Q,'S']": ["pytree", Q, "S"],
+    "PyTree[Q,'T']": ["pytree", Q, "T"],  # the SAME structure name at both nesting levels
+    "Optional[Q]": ["opt", Q],  # None is then a leaf of its own: it occupies a leaf position
+    "Union[None,int,*?v]": ["union", [["none"], ["int"], ["arr", "*?v"]]],
     # deeper nestings: structure-less PyTrees between / around the structured ones
     "PyTree[PyTree[Q]]": ["pytree", ["pytree", Q]],
     "PyTree[PyTree[Q,'S']]": ["pytree", ["pytree", Q, "S"]],
@@ -54,6 +57,10 @@ def leaf_for(lname, sizes):
     """Leaf value spec(s) for one leaf position; `sizes` is a tuple of array sizes that the
     leaf consumes (2 for tuple[Q,Q], else 1)."""
     A = lambda s: ["duck", [s]]
+    if sizes[0] == 0:
+        return ["none"]  # only generated for leaf types that admit None
+    if lname == "Union[None,int,*?v]":
+        return ["duck", [sizes[0], 2]]
     if lname == "Float[Float[?n],m]":
         return ["duck", [4, sizes[0]]]
     if lname == "Float[Float[*?v],m]":
@@ -89,7 +96,10 @@ def sequences(lname, tier):
             npos = [SKEL[c][0] * ar for c in combo]
             if sum(npos) > (8 if tier == "quick" else 9):
                 continue
-            for sizes in itertools.product((2, 3), repeat=sum(npos)):
+            alphabet = (0, 2, 3) if lname in ("Optional[Q]", "Union[None,int,*?v]") else (2, 3)  # 0 = a None leaf
+            if len(alphabet) == 3 and sum(npos) > 6:
+                continue
+            for sizes in itertools.product(alphabet, repeat=sum(npos)):
                 out, k = [], 0
                 for c, n in zip(combo, npos):
                     out.append((c, sizes[k : k + n]))
@@ -182,6 +192,11 @@ def run_sequence(lname, outer, seq, plain, stats, aliased=False):
                 # settled by the statements.  What IS settled: exactly one structured PyTree above
                 # => never AnnotationError; none or two => AnnotationError.
                 allowed = {True, False} if n_struct == 1 else {ANNOT}
+                if n_struct > 1 and outer == "T" and lname == "PyTree[Q,'T']" and seq[i][0] != "x":
+                    # the same NAME at both levels: unless the tree is a single leaf the two levels
+                    # disagree about T's structure, and a plain rejection found before the '?' axis is
+                    # looked at is as good as the AnnotationError
+                    allowed = {ANNOT, False}
                 stats["dontcare"] += 1
                 sharp_now = False
             else:
